@@ -4842,6 +4842,10 @@ class Pack:
         base_type = type
         base_obj = obj
         delta_stack = []
+        # Offsets of the objects on the chain so far. An offset delta always
+        # points backwards, but a ref delta can name any object, so a crafted
+        # pack can contain a cycle of any length.
+        seen_offsets = {base_offset}
         while base_type in DELTA_TYPES:
             prev_offset = base_offset
             if get_ref is None:
@@ -4857,6 +4861,7 @@ class Pack:
                 )
                 assert base_offset is not None
                 base_offset = base_offset - delta_offset
+                seen_offsets.add(base_offset)
                 base_type, base_obj = self.data.get_object_at(base_offset)
                 assert isinstance(base_type, int)
             elif base_type == REF_DELTA:
@@ -4869,8 +4874,11 @@ class Pack:
                 assert isinstance(base_type, int)
                 # base_offset_temp can be None for thin packs (external references)
                 base_offset = base_offset_temp
-                if base_offset == prev_offset:  # object is based on itself
-                    raise UnresolvedDeltas([basename])
+                if base_offset is not None:
+                    if base_offset in seen_offsets:
+                        # object is based on itself, directly or indirectly
+                        raise UnresolvedDeltas([basename])
+                    seen_offsets.add(base_offset)
             else:
                 raise AssertionError(f"Unexpected delta type: {base_type}")
             delta_stack.append((prev_offset, base_type, delta))
